@@ -38,6 +38,7 @@ import (
 //	C04.reported_complete  !complete and Send returned nil
 //	C04.recorded           !complete and the target executed a write of <runid>_offset = snapshot offset
 //	                       into the checkpoint hash, at any time (watched for 5 s after the return)
+//	C04.damaged_accepted   truncation / alteration of a checksum-covered byte and Send returned nil
 //	C04.hang               Send has not returned 60 s (virtual) after the last stimulus
 //	C04.panic              a panic escaped Send
 //	C04.sends_after_return the tool wrote to a target connection (or dialled) after Send had returned
@@ -293,6 +294,12 @@ func (c *c04Run) replay(f c04Fault) *Violation {
 		simrt.Probe("incomplete-and-reported")
 	} else {
 		simrt.Probe("complete-" + map[bool]string{true: "with-error", false: "without-error"}[err != nil])
+		// "Damaged input yields an error": a snapshot cut short, or altered in a byte its checksum covers, cannot pass
+		// for the snapshot the source sent even when every entry happens to have arrived intact (CRC-64 detects every
+		// single-byte alteration; a cut loses at least the end marker or the checksum itself).
+		if (f.mode == "bitflip" || f.mode == "truncate") && done && !crashed && err == nil {
+			return fail("C04.damaged_accepted", "a damaged snapshot was replayed without an error ("+f.mode+")", "%s: Send returned nil, checkpoint written: %v", f.String(), written)
+		}
 	}
 	ss.shutdown()
 	return nil
